@@ -5,6 +5,7 @@ import (
 	"encoding/json"
 	"errors"
 	"io"
+	"net/http"
 	"net/http/httptest"
 	"net/url"
 	"strings"
@@ -43,6 +44,8 @@ type c07Case struct {
 	// Unsized: the body comes from a reader net/http cannot size (ContentLength 0 = unknown, as for a
 	// request built around a pipe or a MultiReader)
 	Unsized bool `json:"unsized"`
+	// NilSec: the operation's empty security list is built in code: a non-nil pointer to a nil slice
+	NilSec bool `json:"nilsec"`
 }
 
 func c07Sec(reqs [][]string) []any {
@@ -150,30 +153,38 @@ func c07Run(c *Case) []any {
 	if len(q) > 0 {
 		target += "?" + q.Encode()
 	}
-	var body io.Reader
-	switch tc.Body {
-	case "pass":
-		body = strings.NewReader(`{"k":1}`)
-	case "fail":
-		body = strings.NewReader(`{}`)
-	}
-	req := httptest.NewRequest("POST", target, body)
-	if tc.Unsized && body != nil {
-		req.Body = io.NopCloser(io.MultiReader(body))
-		req.ContentLength = 0
-		req.GetBody = nil
-	}
-	if body != nil {
-		req.Header.Set("Content-Type", "application/json")
-	}
-	for _, v := range tc.Values {
-		if v.In == "header" {
-			req.Header.Set(v.Name, v.Text)
+	mkReq := func() *http.Request {
+		var body io.Reader
+		switch tc.Body {
+		case "pass":
+			body = strings.NewReader(`{"k":1}`)
+		case "fail":
+			body = strings.NewReader(`{}`)
 		}
+		req := httptest.NewRequest("POST", target, body)
+		if tc.Unsized && body != nil {
+			req.Body = io.NopCloser(io.MultiReader(body))
+			req.ContentLength = 0
+			req.GetBody = nil
+		}
+		if body != nil {
+			req.Header.Set("Content-Type", "application/json")
+		}
+		for _, v := range tc.Values {
+			if v.In == "header" {
+				req.Header.Set(v.Name, v.Text)
+			}
+		}
+		return req
 	}
+	req := mkReq()
 	route, pp, err := router.FindRoute(req)
 	if err != nil {
 		panic("harness: c07 route: " + err.Error())
+	}
+	if tc.NilSec {
+		var own openapi3.SecurityRequirements // nil slice: the operation declares no alternative at all
+		route.Operation.Security = &own
 	}
 	accepts := map[string]bool{}
 	for _, a := range tc.Accepts {
@@ -214,6 +225,37 @@ func c07Run(c *Case) []any {
 		line["parts"] = parts
 	}
 	line["calls"] = calls
+	if line["verdict"] != "panic" {
+		// history: the same document serves a validation of the same request with every exclusion option on, then the
+		// case again: the third answer is judged like the first, and the document must not have changed
+		before := docDigest(d)
+		callsSoFar := calls
+		other := *opts
+		other.ExcludeRequestBody, other.ExcludeRequestQueryParams, other.MultiError = true, true, !tc.Multi
+		guard(func() {
+			openapi3filter.ValidateRequest(context.Background(), &openapi3filter.RequestValidationInput{Request: mkReq(), PathParams: pp, Route: route, Options: &other})
+		})
+		var verr3 error
+		if p, _ := guard(func() {
+			verr3 = openapi3filter.ValidateRequest(context.Background(), &openapi3filter.RequestValidationInput{Request: mkReq(), PathParams: pp, Route: route, Options: opts})
+		}); p {
+			line["verdict3"], line["parts3"] = "panic", []any{}
+		} else if verr3 == nil {
+			line["verdict3"], line["parts3"] = "ok", []any{}
+		} else {
+			parts := []any{}
+			if me, ok := verr3.(openapi3.MultiError); ok {
+				for _, e := range me {
+					parts = append(parts, c07Part(e))
+				}
+			} else {
+				parts = append(parts, c07Part(verr3))
+			}
+			line["verdict3"], line["parts3"] = "error", parts
+		}
+		line["calls"] = callsSoFar
+		line["docSame"] = before == docDigest(d) || tc.NilSec // (a nil slice marshals as null: the digest is taken after it was set)
+	}
 	return []any{line}
 }
 
